@@ -146,7 +146,7 @@ macro_rules! gen_for {
             // with exponent 1 the factor is a plain proportion of the imbalance
             let (ip_pos, ip_neg): ($U, $U) = {
                 let base: $U = if exp_k == 1 { pct(*rng.pick(&[1u64, 5, 20])) } else if exp_k == 3 && !big { 0 } else if exp_k == 3 { f_impact / 1_000_000_000 / 1000 } else { f_impact };
-                match rng.below(6) { 0 => (0, base), 1 => (base, base), 2 => (base.saturating_mul(2), base), 3 => (0, 0), _ => (base, base.saturating_mul(2)) }
+                match if mode == "c10" { rng.range(1, 7) } else { rng.below(6) } { 0 => (0, base), 1 => (base, base), 2 => (base.saturating_mul(2), base), 3 => (0, 0), _ => (base, base.saturating_mul(2)) }
             };
             let max_neg: $U = pct(*rng.pick(&[10u64, 50, 100, 0]));
             let max_pos: $U = if rng.chance(if mode == "c10" { 2 } else { 1 }, 5) { max_neg.saturating_mul(3) + pct(10) } else { *rng.pick(&[0 as $U, max_neg / 2, max_neg]) };
@@ -225,7 +225,7 @@ macro_rules! gen_for {
             let ps0: Vec<String> = pos.iter().map(ps::position).collect();
             let mut steps: Vec<String> = Vec::new();
             // statistics for the tag
-            let (mut n_ok, mut n_err, mut n_dirty, mut n_removed, mut n_liq_ok, mut n_adl_ok, mut n_insolvent, mut n_roundtrip, mut n_promoted, mut n_zero_tok) = (0, 0, 0, 0, 0, 0, 0, 0, 0, 0);
+            let (mut n_ok, mut n_err, mut n_dirty, mut n_removed, mut n_liq_ok, mut n_adl_ok, mut n_insolvent, mut n_roundtrip, mut n_promoted, mut n_zero_tok, mut n_poolcap) = (0, 0, 0, 0, 0, 0, 0, 0, 0, 0, 0);
 
             let n_ops = match script { Some(sc) => sc.ops.len(), None => rng.range(6, 18) as usize };
             let w_fees: u64 = if mode == "c08" { 5 } else { 3 };
@@ -248,6 +248,7 @@ macro_rules! gen_for {
                 let idx: usize;
                 let mut forced: Option<($U, $U)> = None;
                 let mut forced_dt: Option<u64> = None;
+                let mut whale_now = false;
                 if let Some(sc) = script {
                     let mkp = |t: ($U, $U, $U)| Prices { index_token_price: Price { min: t.0, max: t.0 }, long_token_price: Price { min: t.1, max: t.1 }, short_token_price: Price { min: t.2, max: t.2 } };
                     match sc.ops[k - 1] {
@@ -258,19 +259,30 @@ macro_rules! gen_for {
                 } else if let Some((i, pr)) = pending_close.take() {
                     prices = pr; kind = 100; idx = i;
                 } else {
-                    idx = rng.below(n_pos as u64) as usize;
-                    let open = pos[idx].size_in_usd != 0;
+                    let mut idx_t = rng.below(n_pos as u64) as usize;
+                    let open = pos[idx_t].size_in_usd != 0;
                     let total = w_fees + 4 + 5 + w_liq + w_adl + w_round;
-                    let x = rng.below(total);
+                    // c10: most histories start with a large open on one side, so that later round trips on the other side get positive impact
+                    whale_now = mode == "c10" && k == 1 && rng.chance(3, 4);
+                    let x = if whale_now { w_fees } else { rng.below(total) };
                     kind = if x < w_fees { 0 }
                         else if x < w_fees + 4 { 1 }
                         else if x < w_fees + 9 { if open { 2 } else { 1 } }
                         else if x < w_fees + 9 + w_liq { if open { 3 } else { 1 } }
                         else if x < w_fees + 9 + w_liq + w_adl { if open { 4 } else { 1 } }
                         else { 5 };
+                    if mode == "c10" && kind == 5 && rng.chance(3, 4) {
+                        // open the round trip on the lighter side (positive impact), on an empty position if there is one
+                        let oi_l = m.open_interest.0.long_amount.saturating_add(m.open_interest.0.short_amount);
+                        let oi_s = m.open_interest.1.long_amount.saturating_add(m.open_interest.1.short_amount);
+                        if oi_l != oi_s {
+                            let want_long = oi_l < oi_s;
+                            if let Some(j) = (0..n_pos).find(|&j| pos[j].size_in_usd == 0 && pos[j].is_long == want_long) { idx_t = j; }
+                        }
+                    }
                     if kind == 3 && rng.chance(4, 5) {
                         // move the index price against the position by about its collateral ratio
-                        let pp = &pos[idx];
+                        let pp = &pos[idx_t];
                         let cpx = if pp.is_collateral_token_long { long_mid } else { short_mid };
                         let ratio_bp = (pp.collateral_token_amount.saturating_mul(cpx) / (pp.size_in_usd / 10_000).max(1)).min(20_000) as u64;
                         let bp = (ratio_bp * rng.range(60, 140) / 100).min(9_500);
@@ -280,10 +292,11 @@ macro_rules! gen_for {
                         // move the index price in favour of the position's side
                         let bp = *rng.pick(&[200u64, 1000, 3000, 8000]);
                         let d = index_mid / 10_000 * (bp as $U);
-                        index_mid = if pos[idx].is_long { index_mid.saturating_add(d) } else { index_mid.saturating_sub(d).max(1) };
+                        index_mid = if pos[idx_t].is_long { index_mid.saturating_add(d) } else { index_mid.saturating_sub(d).max(1) };
                     } else {
                         index_mid = move_price(rng, index_mid);
                     }
+                    idx = idx_t;
                     long_mid = if long_is_index { index_mid } else { move_price(rng, long_mid) };
                     let ip = mk_price(rng, index_mid);
                     prices = Prices { index_token_price: ip, long_token_price: if long_is_index { ip } else { mk_price(rng, long_mid) }, short_token_price: mk_price(rng, short_mid) };
@@ -311,7 +324,7 @@ macro_rules! gen_for {
                 }
 
                 let p_before = pos[idx];
-                let m_before = m.clone();
+                let mut m_before = m.clone();
                 let cp = if p_before.is_collateral_token_long { prices.long_token_price } else { prices.short_token_price };
                 let liq_of = |mm: &mut M, pp: &mut P| -> String {
                     match pp.ops(mm).check_liquidatable(&prices, true, true) {
@@ -338,8 +351,8 @@ macro_rules! gen_for {
                         // increase (5 = first half of a round trip on an empty position)
                         let open = p_before.size_in_usd != 0;
                         let (coll_inc, sd): ($U, $U) = if let Some(f) = forced { f } else if !open || kind == 5 {
-                            let sd = logu(rng, usd_lo, usd_hi);
-                            let lev = if rng.chance(1, 12) { *rng.pick(&[100u64, 200, 1000]) } else { *rng.pick(&[1u64, 2, 3, 5, 10, 20, 50]) };
+                            let sd = if whale_now { logu(rng, usd_hi / 2, usd_hi) } else { logu(rng, usd_lo, usd_hi) };
+                            let lev = if whale_now { 2 } else if rng.chance(1, 12) { *rng.pick(&[100u64, 200, 1000]) } else { *rng.pick(&[1u64, 2, 3, 5, 10, 20, 50]) };
                             ((sd / (lev as $U) + if rng.chance(9, 10) { cfg.min_cv * 2 } else { 0 }) / cp.min.max(1), sd)
                         } else {
                             match rng.below(4) {
@@ -349,6 +362,34 @@ macro_rules! gen_for {
                                 _ => { let sd = logu(rng, usd_lo, usd_hi); (sd / 10 / cp.min.max(1), sd) }
                             }
                         };
+                        // c10: before a round trip, let the environment (impact distribution / other traders' impact) leave an
+                        // impact pool whose value lies between the max-positive-factor cap and the uncapped positive impact of
+                        // this trade, so that both caps of cap_positive_position_price_impact are exercised in sequence
+                        if mode == "c10" && kind == 5 && !open && script.is_none() && cfg.max_pos_impact <= cfg.max_neg_impact && rng.chance(5, 6) {
+                            let mut c2 = cfg.clone();
+                            c2.max_pos_impact = unit; // 100 %: the probe reports the uncapped impact
+                            let mut probe = m.clone();
+                            probe.config = ps::build_config(&c2);
+                            let ipx = prices.index_token_price.min.max(1);
+                            probe.position_impact.long_amount = <$U>::MAX / 8 / ipx;
+                            let mut pp = pos[idx];
+                            if let Ok(rep) = pp.ops(&mut probe).increase(prices, coll_inc, sd, None).and_then(|a| a.execute()) {
+                                let raw = *rep.execution().price_impact_value();
+                                let cap: $U = gmsol_model::utils::apply_factor::<$U, $DEC>(&sd, &cfg.max_pos_impact).unwrap_or(<$U>::MAX);
+                                if std::env::var("PS_DEBUG").is_ok() { eprintln!("probe: raw {raw} cap {cap} sd {sd}"); }
+                                if raw > 0 && (raw as $U) > cap.saturating_add(2 * ipx) {
+                                    let raw = raw as $U;
+                                    let v = cap + (raw - cap) / 4 * (rng.range(1, 3) as $U);
+                                    let tokens = v / ipx + 1;
+                                    if tokens.saturating_mul(ipx) < raw && tokens.saturating_mul(ipx) > cap {
+                                        m.position_impact.long_amount = tokens;
+                                        m_before = m.clone();
+                                        steps.push(format!("(OpFees {}, OutFees, MkAux false (Ok None) (Ok None))", ps::mstate(&m)));
+                                        n_poolcap += 1;
+                                    }
+                                }
+                            }
+                        }
                         let acc = if forced.is_some() { None } else { acc_for(rng, p_before.is_long) };
                         op_s = format!("OpInc {idx} {} {} {} {}", ps::prices(&prices), z(coll_inc), z(sd), oz(acc));
                         let r = pos[idx].ops(&mut m).increase(prices, coll_inc, sd, acc).and_then(|a| a.execute());
@@ -489,6 +530,7 @@ macro_rules! gen_for {
             if n_adl_ok > 0 { tag.push_str("+adl"); }
             if n_insolvent > 0 { tag.push_str("+insolvent"); }
             if n_roundtrip > 0 { tag.push_str("+roundtrip"); }
+            if n_poolcap > 0 { tag.push_str("+poolcap"); }
             if trivial { tag = format!("hist{w}/trivial"); }
             if script.is_some() { tag = format!("replay{w}/ok{}", n_ok); }
             let term = format!("Hist {w} {dec} {} {s0} [{}] [{}]", cfg.coq(), ps0.join("; "), steps.join("; "));
@@ -644,6 +686,29 @@ fn script_c08_spill(long_side: bool, p0: u64, p1: u64, coll_usd: u64, size: u64,
     }
 }
 
+/// C10: the seeded-change scenario C10a in the u64/9 scale.  A whale long pays 2 % negative impact into the impact
+/// pool, one hour of distribution leaves 46 % of it; then a short of the same size is opened and closed at once:
+/// uncapped positive impact 1 % > impact pool value 0.92 % > max positive factor 0.5 % (= max negative factor).
+fn script_c10_poolcap(hours: u64, size: u64) -> Script<u64> {
+    let unit = 1_000_000_000u64;
+    let mut cfg = test_cfg();
+    cfg.ip_pos = 1000;
+    cfg.ip_neg = 2000;
+    cfg.distribute = [150_000 * unit, 1_000_000];
+    let pr = (200, 200, 1);
+    Script {
+        cfg, primary: (500_000_000_000, 100_000_000_000_000), impact_pool: 0,
+        positions: vec![(true, true), (false, false)],
+        ops: vec![
+            SOp::Fees(0, pr),
+            SOp::Inc(0, pr, 25_000_000_000, 10_000_000_000_000),
+            SOp::Fees(hours * 3600, pr),
+            SOp::Inc(1, pr, 1_000_000_000_000, size),
+            SOp::Dec(1, pr, size, 0),
+        ],
+    }
+}
+
 fn main() {
     let a = args();
     let mut mode = "mix".to_string();
@@ -680,6 +745,11 @@ fn main() {
     }
     if mode == "c10" || mode == "mix" {
         gen64(&mut rng, &mode, Some(&script_c10()));
+        gen64(&mut rng, &mode, Some(&script_c10_poolcap(1, 10_000_000_000_000)));
+        if mode == "c10" {
+            gen64(&mut rng, &mode, Some(&script_c10_poolcap(0, 10_000_000_000_000))); // pool above the uncapped impact: factor cap alone
+            gen64(&mut rng, &mode, Some(&script_c10_poolcap(1, 8_000_000_000_000)));
+        }
     }
     for _ in 0..a.n {
         if mode == "c08" && rng.chance(1, 4) {
